@@ -319,6 +319,10 @@ func BuildCte(query *Query, expr *sqlparser.With) error {
 	for _, cte := range expr.CTEs {
 		copy := *cte
 		data[copy.ID.String()] = CteEvaluation(func() (any, error) {
+			// while a CTE is being evaluated a reference to it is a cycle
+			data[copy.ID.String()] = CteEvaluation(func() (any, error) {
+				return nil, EXPECTATION_FAILED.Extend(fmt.Sprintf("recursive reference to the common table expression %s", copy.ID.String()))
+			})
 			query, err := Prepare(data, copy.Subquery, query.options)
 			if err != nil {
 				return nil, err
